@@ -98,7 +98,7 @@ def run_case(case):
         r = c15.Run(case, {"C11"})
     else:
         r = c14.Run(case, {"C11"})
-    f = r.run()
+    f = archlib.guarded(r, {"C11"})
     for k, v in getattr(r, "stat", {}).items():
         if k.startswith("bad:"):
             STATS[k] = STATS.get(k, 0) + v
